@@ -26,13 +26,14 @@ fn ref_signable(info_hash: &[u8; 20], t: u64) -> [u8; 28] {
 //@ cap: 2400
 //@ mem: 40
 //@ desc: SignedAnnounce::from_dht_response(info_hash, k, t, sig) = Ok iff the oracle said valid for exactly (k, info_hash || t as 8 big-endian bytes, sig); key, timestamp and signature are copied; the wall clock plays no role (any timestamp, any clock)
-//@ bounds: k = a concrete valid key; info_hash 20 symbolic bytes; t full u64; now full u64; sig 64 symbolic bytes; symbolic verdict; unwind 130
-//@ stubs: <VerifyingKey as Verifier<Signature>>::verify -> oracle; signed_announce::system_time -> symbolic u64 microseconds
+//@ bounds: k = a concrete valid key; info_hash 20 symbolic bytes; t full u64; now full u64; sig 64 symbolic bytes; symbolic verdict; unwind 66
+//@ stubs: <VerifyingKey as Verifier<Signature>>::verify -> oracle; VerifyingKey::from_bytes -> wrap without point decompression (real decompression: C02.O2c and native replay); signed_announce::system_time -> symbolic u64 microseconds
 //@ functions: SignedAnnounce::from_dht_response, SignedAnnounce::from_dht_message, signed_announce::encode_signable
 #[kani::proof]
 #[kani::stub(<ed25519_dalek::VerifyingKey as ed25519_dalek::Verifier<ed25519_dalek::Signature>>::verify, oracle::verify_stub)]
 #[kani::stub(system_time, wall::system_time)]
-#[kani::unwind(130)]
+#[kani::stub(ed25519_dalek::VerifyingKey::from_bytes, oracle::from_bytes_wrap)]
+#[kani::unwind(66)]
 fn c02_o2_signed_announce_response() {
     let verdict: bool = kani::any();
     oracle::arm(0, verdict);
@@ -62,12 +63,13 @@ fn c02_o2_signed_announce_response() {
 //@ also: C02
 //@ desc: SignedAnnounce::from_dht_request = Ok iff the oracle said valid for (k, info_hash || t, sig) AND |now_us - t| <= 45 000 000 (both full u64, no overflow)
 //@ bounds: as C02.O2
-//@ stubs: <VerifyingKey as Verifier<Signature>>::verify -> oracle; signed_announce::system_time -> symbolic u64 microseconds
+//@ stubs: <VerifyingKey as Verifier<Signature>>::verify -> oracle; VerifyingKey::from_bytes -> wrap without point decompression (real decompression: C02.O2c and native replay); signed_announce::system_time -> symbolic u64 microseconds
 //@ functions: SignedAnnounce::from_dht_request, SignedAnnounce::from_dht_message
 #[kani::proof]
 #[kani::stub(<ed25519_dalek::VerifyingKey as ed25519_dalek::Verifier<ed25519_dalek::Signature>>::verify, oracle::verify_stub)]
 #[kani::stub(system_time, wall::system_time)]
-#[kani::unwind(130)]
+#[kani::stub(ed25519_dalek::VerifyingKey::from_bytes, oracle::from_bytes_wrap)]
+#[kani::unwind(66)]
 fn c03_o4p_signed_announce_request() {
     let verdict: bool = kani::any();
     oracle::arm(0, verdict);
